@@ -43,6 +43,7 @@ func checkC05(c *Ctx, r *Report) {
 	c05R3(c, r)
 	selectorMaskedInText(c, r, "C05.R3.selector-masked")
 	emptyAlpnAccepted(c, r, "C05.R3.empty-alpn")
+	noTokenDroppedBeforeSlurp(c, r, "C05.R3.no-token-dropped")
 	gatewayTypeDecides(c, r, "C05.R3.gateway-type-decides")
 	c05R4(c, r)
 	c05R5(c, r)
